@@ -65,9 +65,10 @@ def empty_spec(cname):
     return {"cls": cname, "atoms": [], "bonds": [], "astereo": [], "bstereo": [], "achg": [], "bchg": []}
 
 
-def build(spec):
+def build(spec, changes_first=False):
     """atoms: [(id, element, attrs)], bonds: [(a, b, role|None, attrs)], astereo/bstereo: [desc],
-    achg/bchg: [{"broken": desc, ...}] -- all through public mutators, in list order."""
+    achg/bchg: [{"broken": desc, ...}] -- all through public mutators, in list order (changes_first: stereo changes are set before
+    the static descriptors)."""
     cname = spec["cls"]
     g = CLS[cname]()
     for a, el, attrs in spec["atoms"]:
@@ -83,16 +84,21 @@ def build(spec):
             g.add_fleeting_bond(a, b, **attrs)
         else:
             raise AssertionError(role)
-    if is_stereo(cname):
-        for d in spec.get("astereo", []):
-            g.set_atom_stereo(mk_desc(d))
-        for d in spec.get("bstereo", []):
-            g.set_bond_stereo(mk_desc(d))
-    if cname == "SCRG":
-        for ch in spec.get("achg", []):
-            g.set_atom_stereo_change(**{k: mk_desc(v) for k, v in ch.items() if v is not None})
-        for ch in spec.get("bchg", []):
-            g.set_bond_stereo_change(**{k: mk_desc(v) for k, v in ch.items() if v is not None})
+    def statics():
+        if is_stereo(cname):
+            for d in spec.get("astereo", []):
+                g.set_atom_stereo(mk_desc(d))
+            for d in spec.get("bstereo", []):
+                g.set_bond_stereo(mk_desc(d))
+
+    def changes():
+        if cname == "SCRG":
+            for ch in spec.get("achg", []):
+                g.set_atom_stereo_change(**{k: mk_desc(v) for k, v in ch.items() if v is not None})
+            for ch in spec.get("bchg", []):
+                g.set_bond_stereo_change(**{k: mk_desc(v) for k, v in ch.items() if v is not None})
+    for step in ((changes, statics) if changes_first else (statics, changes)):
+        step()
     return g
 
 
